@@ -102,6 +102,9 @@ func (s *ScopeSchema) ApplySelf() {
 }
 
 func (s *ScopeSchema) ApplyNamespace(externalObjects map[string]*ObjectSchema, namespace string) {
+	// An inconsistent root (absent, nil, or stored under another key than its ID) is reported when the
+	// scope is linked rather than on first use.
+	s.RootObject()
 	// When the namespace is the default namespace, each scope should pass itself down.
 	var objectsToApply map[string]*ObjectSchema
 	if namespace == SelfNamespace {
